@@ -263,7 +263,17 @@ def run_path(con: Contract, case, prefix, worklist, report: FunctionReport, plan
                 report.record(name, "undecided", info)
                 report.assumptions.add(
                     f"aux:counter-model of {name.split('::')[-1]} on a path that read undeclared attribute(s) "
-                    f"{info['aux_reads']} (no invariant known for them): undecided, not a violation")
+                    f"{info['aux_reads']} (no invariant known for them): a violation only if a short native history "
+                    "from the constructor's values reaches it")
+                m = info.get("model")
+                try:
+                    inputs = concretize_bindings(ctx.entry_syms, m)
+                    report.refutations.append(
+                        {"obligation": name, "case": label, "inputs": inputs, "decisions": list(ctx.decisions),
+                         "goal": str(info.get("goal"))[:2000], "model": str(m)[:4000],
+                         "awaits": _conc_awaits(ctx.await_log, m), "aux_reads": list(info["aux_reads"])})
+                except Exception:  # pragma: no cover
+                    pass
                 continue
             report.record(name, verdict, info)
             if verdict == "refuted" and not name.endswith("::__canary__"):
@@ -272,6 +282,15 @@ def run_path(con: Contract, case, prefix, worklist, report: FunctionReport, plan
                     inputs = concretize_bindings(ctx.entry_syms, m)
                 except Exception as e:  # pragma: no cover
                     inputs = {"__concretize_error__": repr(e)}
+                if any("exc_sym" in r for r in ctx.sync_outcomes) and isinstance(inputs, dict):
+                    from .concretize import conc as _conc
+
+                    try:
+                        inputs["__sync_outcomes__"] = [
+                            {"name": r["name"], "nth": r["nth"], "exc": _conc(r["exc_sym"], m, 0, {})}
+                            for r in ctx.sync_outcomes if "exc_sym" in r]
+                    except Exception:  # pragma: no cover
+                        pass
                 report.refutations.append(
                     {"obligation": name, "case": label, "inputs": inputs, "decisions": list(ctx.decisions),
                      "goal": str(info.get("goal"))[:2000], "model": str(m)[:4000],
